@@ -324,6 +324,14 @@ def disturb_process():
                 t.convert()
             except Exception:
                 pass
+        from ofxtools.scripts import ofxget as og
+
+        for b in bads[:6]:
+            for fn in (og.extract_signoninfos, og.extract_acctinfos):
+                try:
+                    list(fn(io.BytesIO(b)))
+                except Exception:
+                    pass
         net = F.Net()
         net.install()
         try:
